@@ -163,9 +163,10 @@ fn _parse_with_lexer_ctx(lexer: &mut Lexer, r: &impl Resolve, ctx: Option<&Conte
         // First backup position
         let pos_bk = lexer.get_pos();
 
-        let second_lexeme = t!(lexer.next());
-        if second_lexeme.is_integer() {
-            let third_lexeme = t!(lexer.next());
+        // the look-ahead for `gen R` may hit the end of the buffer: then it is but a number
+        let second_lexeme = lexer.next().ok().filter(|l| l.is_integer());
+        let third_lexeme = second_lexeme.and_then(|_| lexer.next().ok());
+        if let (Some(second_lexeme), Some(third_lexeme)) = (second_lexeme, third_lexeme) {
             if third_lexeme.equals(b"R") {
                 // It is indeed a reference to an indirect object
                 check(flags, ParseFlags::REF)?;
